@@ -1,8 +1,8 @@
 (* Model/Epsilon.v — literal model over exact Q of
      platypus/core.py  EpsilonDominance.same_box   (core.py:856-914)
-                       EpsilonDominance.compare    (core.py:916-983)
-                       Archive.add                 (core.py:1040-1069)  [generic, any comparator]
-                       EpsilonBoxArchive.add       (core.py:1352-1367)  [with the improvements counter]
+                       EpsilonDominance.compare    (core.py:916-996)
+                       Archive.add                 (core.py:1053-1082)  [generic, any comparator]
+                       EpsilonBoxArchive.add       (core.py:1365-1380)  [with the improvements counter]
    Executable definitions only (proofs are in Proofs/EpsilonProofs.v).
 
    Numbers are exact rationals: "/", floor, "-", "*", squares and sums are the exact
@@ -23,7 +23,7 @@ Record ecfg := ECfg { e_eps : list Q; e_dirs : list bool; e_con : bool }.
 (* what the comparator / archive sees of a Solution: identity, objectives, constraint_violation *)
 Record esol := ESol { e_sid : nat; e_objs : list Q; e_cv : Q }.
 
-(* self.epsilons[i if i < len(self.epsilons) else -1]      core.py:896,942,969
+(* self.epsilons[i if i < len(self.epsilons) else -1]      core.py:896,942,976
    (the LAST epsilon is reused for extra objectives; [] raises IndexError = None) *)
 Definition eps_at (es : list Q) (i : nat) : option Q :=
   if (i <? length es)%nat then nth_error es i else nth_error es (length es - 1).
@@ -76,24 +76,29 @@ Fixpoint eps_scan (es : list Q) (i : nat) (dirs : list bool) (o1 o2 : list Q) (d
       end
   end.
 
-(* core.py:958-974 : dist += math.pow(o - i*epsilon, 2.0) for both solutions *)
-Fixpoint eps_dist (es : list Q) (i : nat) (dirs : list bool) (o1 o2 : list Q) (dist1 dist2 : Q)
-  : option (Q * Q) :=
+(* core.py:958-981 (second loop, entered only when both flags are still False):
+     better1/better2 : plain "<" on the sign-adjusted objectives,
+     dist += math.pow(o - i*epsilon, 2.0) for both solutions *)
+Fixpoint eps_dist (es : list Q) (i : nat) (dirs : list bool) (o1 o2 : list Q)
+                  (dist1 dist2 : Q) (better1 better2 : bool)
+  : option (Q * Q * bool * bool) :=
   match dirs with
-  | [] => Some (dist1, dist2)
+  | [] => Some (dist1, dist2, better1, better2)
   | mx :: dirs' =>
       match o1, o2 with
       | a :: o1', b :: o2' =>
+          let a' := eps_adj mx a in
+          let b' := eps_adj mx b in
+          let better1' := if Qltb a' b' then true else better1 in
+          let better2' := if Qltb a' b' then better2 else if Qltb b' a' then true else better2 in
           match eps_at es i with
           | None => None
           | Some e =>
-              let a' := eps_adj mx a in
-              let b' := eps_adj mx b in
               match box_index e a', box_index e b' with
               | Some i1, Some i2 =>
                   let t1 := (a' - inject_Z i1 * e)%Q in
                   let t2 := (b' - inject_Z i2 * e)%Q in
-                  eps_dist es (S i) dirs' o1' o2' (dist1 + t1 * t1)%Q (dist2 + t2 * t2)%Q
+                  eps_dist es (S i) dirs' o1' o2' (dist1 + t1 * t1)%Q (dist2 + t2 * t2)%Q better1' better2'
               | _, _ => None
               end
           end
@@ -101,7 +106,7 @@ Fixpoint eps_dist (es : list Q) (i : nat) (dirs : list bool) (o1 o2 : list Q) (d
       end
   end.
 
-(* EpsilonDominance.compare                                             core.py:916-983 *)
+(* EpsilonDominance.compare                                             core.py:916-996 *)
 Definition eps_compare (c : ecfg) (s1 s2 : esol) : option Z :=
   match eps_ladder (e_con c) (e_cv s1) (e_cv s2) with
   | Some r => Some r
@@ -111,9 +116,14 @@ Definition eps_compare (c : ecfg) (s1 s2 : esol) : option Z :=
       | Some SExit => Some 0
       | Some (SFlags d1 d2) =>
           if negb d1 && negb d2 then
-            match eps_dist (e_eps c) 0 (e_dirs c) (e_objs s1) (e_objs s2) 0%Q 0%Q with
+            match eps_dist (e_eps c) 0 (e_dirs c) (e_objs s1) (e_objs s2) 0%Q 0%Q false false with
             | None => None
-            | Some (dist1, dist2) => if Qltb dist1 dist2 then Some (-1) else Some 1
+            | Some (dist1, dist2, better1, better2) =>
+                (* within a box a Pareto-dominating solution wins outright *)
+                if better1 && negb better2 then Some (-1)
+                else if better2 && negb better1 then Some 1
+                else if Qltb dist1 dist2 then Some (-1)
+                else Some 1
             end
           else if d1 then Some (-1)
           else Some 1
@@ -150,7 +160,7 @@ Fixpoint eps_compress {A} (l : list A) (sel : list bool) : list A :=
   | _, _ => []
   end.
 
-(* Archive.add with an arbitrary comparator                             core.py:1061-1069
+(* Archive.add with an arbitrary comparator                             core.py:1074-1082
      flags = [compare(solution, s) for s in contents]
      if any(x > 0 for x in flags): return False
      contents = compress(contents, [x == 0 for x in flags]) + [solution]; return True *)
@@ -166,7 +176,7 @@ Definition eps_arch_add (cmp : esol -> esol -> option Z) (a : list esol) (s : es
 (* Archive(EpsilonDominance(epsilons)).add — what OMOPSO / CMAES use    algorithms.py:1197,1344 *)
 Definition eps_plain_add (c : ecfg) := eps_arch_add (eps_compare c).
 
-(* EpsilonBoxArchive: state = (_contents, improvements)                 core.py:1352-1367
+(* EpsilonBoxArchive: state = (_contents, improvements)                 core.py:1365-1380
    not_same_box is computed against ALL current members, before the filtering. *)
 Definition eps_box_add (c : ecfg) (st : list esol * nat) (s : esol)
   : option ((list esol * nat) * bool) :=
